@@ -237,6 +237,49 @@ theorem cap_installs (r : Reg) (e : Nat) (c : Bytes) (h : (cap r e c).2 = true) 
   have := (cap_success_iff r e c).mp h
   rw [cap_success r e c this]; simp
 
+-- ------------------------------------------------------------------ the git backend's retry loop
+
+theorem run_append (r : Reg) (a b : List (Nat × Bytes)) :
+    (run r (a ++ b)).1 = (run (run r a).1 b).1 := by
+  induction a generalizing r with
+  | nil => simp [run]
+  | cons op t ih => obtain ⟨e, c⟩ := op; simp only [List.cons_append, run]; exact ih _
+
+/-- **The retry loop with re-validation on every attempt is one atomic compare-and-swap**: whatever
+the other clients' updates that land between this client's fetches and pushes (`ws`), the outcome
+of `CheckAndPutManifest` equals a single `cap` step applied to a state reached from the initial
+one by other clients' conditional updates only — i.e. the operation linearizes at its last fetch.
+(Git backend: `Tie.Blobstore.git_cap_revalidates` ties `checkEvery = true` to the source.) -/
+theorem capRetry_is_cap (r : Reg) (e : Nat) (c : Bytes) (ws : List (List (Nat × Bytes))) (first : Bool) :
+    ∃ others, capRetry true r e c ws first = cap (run r others).1 e c := by
+  induction ws generalizing r first with
+  | nil =>
+    refine ⟨[], ?_⟩
+    simp only [capRetry, Bool.true_or, Bool.true_and, run, cap]
+    by_cases h : e = r.ver <;> simp [h]
+  | cons w ws ih =>
+    simp only [capRetry, Bool.true_or, Bool.true_and]
+    by_cases h : e = r.ver
+    · simp only [h, bne_self_eq_false, Bool.false_eq_true, if_false]
+      by_cases hl : (run r w).1 = r
+      · refine ⟨[], ?_⟩; simp [hl, run, cap]
+      · simp only [hl, if_false]
+        obtain ⟨others, ho⟩ := ih (run r w).1 false
+        refine ⟨w ++ others, ?_⟩
+        rw [run_append, ← h]; exact ho
+    · refine ⟨[], ?_⟩
+      have : (e != r.ver) = true := by simpa using h
+      simp [this, run, cap, h]
+
+/-- …whereas validating only on the first attempt is NOT a compare-and-swap: another client's
+update from version 1 lands before the push, the retry overwrites it, and both writers that
+expected version 1 succeed (the seeded breakage of the git backend; harness key
+`cas-two-winners:git`). -/
+theorem capRetry_first_only_breaks :
+    (capRetry false ⟨[0], 1⟩ 1 [9] [[(1, [7])]] true) = (⟨[9], 3⟩, true) ∧
+    (run ⟨[0], 1⟩ [(1, [7])]).2 = [true] ∧
+    (capRetry true ⟨[0], 1⟩ 1 [9] [[(1, [7])]] true) = (⟨[7], 2⟩, false) := by decide
+
 -- non-vacuity: two writers race from the empty store, a third from version 1
 example : (run Reg.empty [(0, [1]), (0, [2]), (1, [3]), (1, [4])]).2 = [true, false, true, false] ∧
     (run Reg.empty [(0, [1]), (0, [2]), (1, [3]), (1, [4])]).1 = ⟨[3], 2⟩ := by decide
